@@ -70,7 +70,8 @@ def check_reprs(e, tag, reprs, v, n):
 
     def dec(s, want, kind):
         if e.mode != "sym":
-            return e.claim("%s:%s" % (tag, kind), s == str(want), {"got": s})
+            # same claim label as the symbolic run, so that a counterexample can be confirmed
+            return e.claim("%s:%s-value" % (tag, kind), s == str(want), {"got": s})
         toks = T.decode(s)
         if len(toks) == 1 and toks[0][0] == "span":
             g = e.claim("%s:%s-renderer" % (tag, kind), toks[0][1] in ("", "d"))
@@ -181,7 +182,7 @@ def h_memory(e, subset, cached, order="asc", after="none"):
 def h_toy(e):
     from symx.state import ToyInputs, mk_toy
 
-    inp = ToyInputs(e, mem_size=2)
+    inp = ToyInputs(e, mem_size=2, pc_full=True)  # the program counter takes every 12-bit value
     sim, _ = mk_toy(e, inp)
     reps = sim.get_register_representations()
     e.observe("accu", list(reps["accu"]))
